@@ -5,7 +5,10 @@
 
 package date
 
+import "go.lstv.dev/util/internal"
+
 //@ config MaxInputLength
+//@ domain MaxInputLength >= 0
 //@ config Formatter = DefaultFormatter
 //@ config Parser = DefaultParser[[]byte]
 
@@ -122,9 +125,13 @@ package date
 //@   split len(input) == 13
 //@   split len(input) == 14
 //@   split len(input) == 15
+//@   split e: ext(input)
 
 //@ func newParseError
 //@   inline
+
+//@ func validDay
+//@   ensures [C09.real C11.real] result <==> realDay(year, int(month), day)
 
 //@ func formatByVerb
 //@   ensures [C01.verb] result == ite(verb == 'b', FormatBasic, 0)
@@ -146,6 +153,20 @@ package date
 //@   ensures [C09.value C01.parse] err == nil ==> yr(*d) == Y(data) && mo(*d) == M(data) && dy(*d) == D(data) && wf(*d)
 //@   assigns *d
 
+// C01, first half: the formatter's output is a date text in the parser's sense, spelling the date's own components.
+//@ func lemmaC01FormatIsText
+//@   lemma
+//@   requires wf(d) && yearOK(d)
+//@   ensures [C01.canon] len(b) == isoLen(yr(d), f&FormatBasic != 0) && dateText(b) && (ext(b) <==> f&FormatBasic == 0)
+//@   ensures [C01.canon] Y(b) == yr(d) && M(b) == mo(d) && D(b) == dy(d)
+//@   ensures fresh(b)
+//@   split yr(d) < 10000
+//@   split 10000 <= yr(d) && yr(d) < 100000
+//@   split 100000 <= yr(d) && yr(d) < 1000000
+//@   split 1000000 <= yr(d) && yr(d) < 10000000
+//@   split 10000000 <= yr(d) && yr(d) < 100000000
+//@   split b: f&FormatBasic != 0
+
 // C01: formatting a date of a year 0..999999999 and parsing the text back (limit disabled or large enough) gives the date.
 //@ func lemmaC01RoundTrip
 //@   lemma
@@ -153,11 +174,6 @@ package date
 //@   requires withinLimit(isoLen(yr(d), f&FormatBasic != 0))
 //@   requires f&FormatBasic != 0 ==> r&RuleDisableBasic == 0
 //@   ensures [C01.roundtrip] err == nil && got == d
-//@   split yr(d) < 10000
-//@   split yr(d) < 100000
-//@   split yr(d) < 1000000
-//@   split yr(d) < 10000000
-//@   split yr(d) < 100000000
 
 // ---- C07: ordering --------------------------------------------------------------------------------------------
 //@ func (Date).Equal
@@ -199,6 +215,7 @@ package date
 //@   ensures [C11.strict] err == nil <==> len(data) == 7 && data[0] == 1 && realDay(int(be32(data)), int(data[5]), int(data[6]))
 //@   ensures [C11.value] err == nil ==> d.year == be32(data)-1 && d.month == data[5]-1 && d.day == data[6]-1
 //@   ensures [C11.real] err == nil ==> wf(*d)
+//@   ensures [C11.class] len(data) == 7 && data[0] == 1 && !realDay(int(be32(data)), int(data[5]), int(data[6])) ==> errIs(err, ErrInvalidDate)
 //@   ensures [C17.recv] err != nil ==> *d == old(*d)
 //@   assigns *d
 
@@ -234,9 +251,14 @@ package date
 
 var _ = []any{DefaultParser[string], DefaultParser[[]byte]}
 
+func lemmaC01FormatIsText(d Date, f Format) (b []byte) {
+	internal.LemmaDecDigits(d.Year())
+	b, _ = DefaultFormatter(nil, d, f)
+	return b
+}
+
 func lemmaC01RoundTrip(d Date, f Format, r Rule) (got Date, err error) {
-	b, _ := DefaultFormatter(nil, d, f)
-	return DefaultParser(b, r)
+	return DefaultParser(lemmaC01FormatIsText(d, f), r)
 }
 
 func lemmaC07Trichotomy(d, e Date) (before, equal, after bool) {
